@@ -1,396 +1,21 @@
-(* C12 — the property as decidable predicates over observable traces, the
-   harness-level operations (one stimulus, then every call runs until it
-   blocks) and the decoding of correspondence lines.  No proofs here.
-
-   WIRE FORMAT (one case per line)
-   -------------------------------
-   kind 0 — swarm scenario, one remote peer:
-       0 DialAttempts (OP OBS)*
-     OP  = 1 lim proxy           an inbound connection arrives (Swarm.addConn), Stat().Limited = lim,
-                                 Transport().Proxy() = proxy; conn ids are 0,1,2.. in creation order
-         | 2 c                   the transport connection c reports IsClosed() (still in the swarm's list)
-         | 3 c                   Conn.Close() on c (removed from the swarm's list)
-         | 4 dial allow force nodial
-                                 a new call (ids 0,1,2..): dial=0 Swarm.NewStream, dial=1 Swarm.DialPeer, with
-                                 WithAllowLimitedConn / WithForceDirectDial / WithNoDial as flagged
-         | 5 tid                 the context of call tid is cancelled
-         | 6 tid ok              the transport's OpenStream that call tid is parked in returns (ok=0: an error)
-         | 7 k a_1..a_k          the peerstore's addresses of the peer become a_1..a_k; address = 4*id + class,
-                                 class 0 direct, 1 relay (/p2p-circuit), 2 no transport
-         | 8 a ok lim            the transport dial parked on address a returns (ok=1: a conn with Limited=lim)
-         | 9                     virtual time advances by network.DialPeerTimeout: every wait / dial times out
-         | 10 lim proxy          like 1, but the connection already reports IsClosed() when it is added
-     OBS = nw key cn  n (st arg)^n  k (a f)^k
-         nw  = len(directConnNotifs.m[p]); key = 1 iff the map has the key
-         cn  = Connectedness(p): 0 NotConnected, 1 Connected, 2 Limited
-         per call: st 1 blocked waiting for a direct connection (arg 0), 2 parked in OpenStream of conn arg,
-                   3 blocked in dialPeer (arg 0), 4 returned a stream/conn on conn arg, 5 returned error arg
-                   (st 0 never comes from the implementation: the model's "still runnable")
-         dials parked in a transport, ascending: address a, f = GetForceDirectDial(ctx of that dial)
-   kind 1 — hole-punch decisions: see the second half of this file. *)
+(* C12 — entry points of the correspondence driver: dispatch on the case kind.
+   kind 0 = swarm scenario (format and monitor in SpecSwarm.v). *)
 From Coq Require Import List Arith ZArith Bool.
 From Verif Require Import lib.Wire c12.Model.
+From Verif Require Export c12.SpecSwarm.
 Import ListNotations.
-
-(* ---- operations ------------------------------------------------------------- *)
-Inductive op :=
-| OAdd (lim proxy : bool)
-| OMark (c : nat)
-| OReap (c : nat)
-| OStart (dial allow force nodial : bool)
-| OCtx (tid : nat)
-| OOpenRes (tid : nat) (ok : bool)
-| OAddrs (l : list addr)
-| ODialRes (a : addr) (ok lim : bool)
-| OExpire
-| OAddClosed (lim proxy : bool).
-
-(* run the lowest-numbered runnable call for one step *)
-Fixpoint first_enabled (s : state) (tid n : nat) : option state :=
-  match n with
-  | O => None
-  | S k => match step s (AThread tid) with
-           | Some s' => Some s'
-           | None => first_enabled s (S tid) k
-           end
-  end.
-
-Fixpoint settle (fuel : nat) (s : state) : state :=
-  match fuel with
-  | O => s
-  | S f => match first_enabled s 0 (length (threads s)) with
-           | Some s' => settle f s'
-           | None => s
-           end
-  end.
-
-Definition rank (p : pc) : nat :=
-  match p with
-  | POpenFailed _ => 12 | PLoop => 11 | PDialStart => 10 | PDialReq => 9 | PDialWait _ => 8
-  | PGot _ => 7 | PWaitReg => 6 | PWaiting _ => 5 | PWoken => 4 | PExpired _ => 4
-  | POpen _ => 3 | POpening _ => 2 | PDone _ => 0
-  end.
-
-Definition measure (s : state) : nat := fold_right (fun t acc => rank (t_pc t) + acc) 0 (threads s).
-
-Definition waits (t : thread) : bool :=
-  match t_pc t with PWaiting _ | PDialWait _ => true | _ => false end.
-
-Fixpoint expire_all (s : state) (tid n : nat) : state :=
-  match n with
-  | O => s
-  | S k =>
-      let s1 := match nth_error (threads s) tid with
-                | Some t => if waits t then do_step s (ACtx tid) else s
-                | None => s
-                end in
-      expire_all s1 (S tid) k
-  end.
-
-Definition stimulate (s : state) (o : op) : state :=
-  match o with
-  | OAdd lim proxy => do_step (do_step s (AAppend lim proxy)) (ANotify (length (conns s)))
-  | OMark c => do_step s (AMark c)
-  | OReap c => do_step s (AReap c)
-  | OStart d a f n => do_step s (AStart d a f n)
-  | OCtx tid => do_step s (ACtx tid)
-  | OOpenRes tid ok => do_step s (AOpenRes tid ok)
-  | OAddrs l => do_step s (AAddrs l)
-  | ODialRes a ok lim =>
-      do_step (do_step (do_step s (ADialRes a ok lim)) (ANotify (length (conns s)))) ADeliver
-  | OExpire => expire_all s 0 (length (threads s))
-  | OAddClosed lim proxy =>
-      do_step (do_step (do_step s (AAppend lim proxy)) (AMark (length (conns s)))) (ANotify (length (conns s)))
-  end.
-
-Definition apply_op (s : state) (o : op) : state :=
-  let s1 := stimulate s o in settle (S (measure s1)) s1.
-
-(* ---- observations -------------------------------------------------------------- *)
-Record obs := mkObs {
-  o_nw : nat; o_key : bool; o_cn : nat;
-  o_threads : list (nat * nat);
-  o_dials : list (addr * bool) }.
-
-Definition status (s : state) (t : thread) : nat * nat :=
-  match t_pc t with
-  | PWaiting w => if mem w (closedw s) || t_ctx t then (0, 5) else (1, 0)
-  | POpening c => (2, c)
-  | PDialWait _ => if t_ctx t then (0, 8) else (3, 0)
-  | PDone (ROk c) => (4, c)
-  | PDone (RErr e) => (5, e)
-  | p => (0, rank p)
-  end.
-
-Fixpoint insert_dial (x : addr * bool) (l : list (addr * bool)) : list (addr * bool) :=
-  match l with
-  | [] => [x]
-  | y :: r => if Nat.leb (fst x) (fst y) then x :: l else y :: insert_dial x r
-  end.
-
-Definition dials_of (s : state) : list (addr * bool) := fold_right insert_dial [] (inflight s).
-
-Definition obs_of (s : state) : obs :=
-  mkObs (length (waiters s)) (negb (Nat.eqb (length (waiters s)) 0)) (connectedness (conns s))
-        (map (status s) (threads s)) (dials_of s).
-
-Definition pair_eqb (a b : nat * nat) : bool := Nat.eqb (fst a) (fst b) && Nat.eqb (snd a) (snd b).
-Definition dial_eqb (a b : addr * bool) : bool := Nat.eqb (fst a) (fst b) && Bool.eqb (snd a) (snd b).
-
-(* first differing field: 0 none, 1 nw, 2 key, 3 connectedness, 4 calls, 5 dials *)
-Definition obs_diff (a b : obs) : nat :=
-  if negb (Nat.eqb (o_nw a) (o_nw b)) then 1
-  else if negb (Bool.eqb (o_key a) (o_key b)) then 2
-  else if negb (Nat.eqb (o_cn a) (o_cn b)) then 3
-  else if negb (list_eqb pair_eqb (o_threads a) (o_threads b)) then 4
-  else if negb (list_eqb dial_eqb (o_dials a) (o_dials b)) then 5
-  else 0.
-
-(* the trace the model produces for a list of operations *)
-Fixpoint model_trace (s : state) (ops : list op) : list (op * obs) :=
-  match ops with
-  | [] => []
-  | o :: r => let s' := apply_op s o in (o, obs_of s') :: model_trace s' r
-  end.
-
-(* ---- the property monitor (kind 0) ------------------------------------------------ *)
-(* Bookkeeping derived from the operations and the observations only:
-     m_conns    per conn id: Limited, Proxy, open (not reported closed, not Closed)
-     m_calls    per call: dial, allow-limited, force-direct, no-dial
-     m_prev     the calls' states in the previous observation
-     m_dials    the parked dials of the previous observation *)
-Record mon := mkMon {
-  m_conns : list (bool * bool * bool);
-  m_calls : list (bool * bool * bool * bool);
-  m_prev : list (nat * nat);
-  m_dials : list (addr * bool) }.
-
-Definition mon_init : mon := mkMon [] [] [] [].
-
-Definition close_conn (cs : list (bool * bool * bool)) (c : nat) : list (bool * bool * bool) :=
-  match nth_error cs c with
-  | Some (l, p, _) => set_nth cs c (l, p, false)
-  | None => cs
-  end.
-
-(* does this operation bring a new connection?  (Limited, Proxy) *)
-Definition op_new_conn (m : mon) (o : op) : option (bool * bool) :=
-  match o with
-  | OAdd lim proxy => Some (lim, proxy)
-  | ODialRes a ok lim => if ok && mem a (map fst (m_dials m)) then Some (lim, is_relay a) else None
-  | _ => None
-  end.
-
-Definition mon_conns (m : mon) (o : op) : list (bool * bool * bool) :=
-  match op_new_conn m o with
-  | Some (l, p) => m_conns m ++ [(l, p, true)]
-  | None =>
-      match o with
-      | OMark c | OReap c => close_conn (m_conns m) c
-      | OAddClosed l p => m_conns m ++ [(l, p, false)]
-      | _ => m_conns m
-      end
-  end.
-
-Definition mon_calls (m : mon) (o : op) : list (bool * bool * bool * bool) :=
-  match o with
-  | OStart d a f n => m_calls m ++ [(d, a, f, n)]
-  | _ => m_calls m
-  end.
-
-(* clause 1/2: what a call returned *)
-Definition result_ok (cs : list (bool * bool * bool)) (call : bool * bool * bool * bool) (st : nat * nat) : bool :=
-  let '(dial, allow, force, _) := call in
-  match st with
-  | (4, c) =>
-      match nth_error cs c with
-      | None => false                                  (* a connection nobody created *)
-      | Some (lim, proxy, _) =>
-          if dial then negb (force && proxy)           (* force-direct dial never returns a relayed conn *)
-          else negb lim || allow                       (* stream over a limited conn only if allowed *)
-      end
-  | _ => true
-  end.
-
-Fixpoint results_ok (cs : list (bool * bool * bool)) (calls : list (bool * bool * bool * bool))
-         (sts : list (nat * nat)) : bool :=
-  match calls, sts with
-  | [], [] => true
-  | c :: cr, s :: sr => result_ok cs c s && results_ok cs cr sr
-  | _, _ => false
-  end.
-
-Definition is_waiting (st : nat * nat) : bool := Nat.eqb (fst st) 1.
-Definition n_waiting (sts : list (nat * nat)) : nat := length (filter is_waiting sts).
-
-(* clause "fails if none appears in time": a call that was waiting when its
-   context ended has returned an error *)
-Definition expired_ok (prev now : nat * nat) : bool :=
-  negb (is_waiting prev) || Nat.eqb (fst now) 5.
-
-Fixpoint all_expired_ok (prev now : list (nat * nat)) : bool :=
-  match prev, now with
-  | p :: pr, n :: nr => expired_ok p n && all_expired_ok pr nr
-  | _, _ => true
-  end.
-
-Definition ctx_ok (o : op) (prev now : list (nat * nat)) : bool :=
-  match o with
-  | OCtx tid =>
-      match nth_error prev tid, nth_error now tid with
-      | Some p, Some n => expired_ok p n
-      | _, _ => true
-      end
-  | OExpire => all_expired_ok prev now
-  | _ => true
-  end.
-
-(* clause "reported as Limited rather than Connected" *)
-Definition m_open (x : bool * bool * bool) : bool := snd x.
-Definition m_lim (x : bool * bool * bool) : bool := fst (fst x).
-Definition cn_ok (cs : list (bool * bool * bool)) (cn : nat) : bool :=
-  let opens := filter m_open cs in
-  let has_direct := existsb (fun x => negb (m_lim x)) opens in
-  (* only limited connections -> Limited *)
-  (match opens with [] => true | _ => has_direct || Nat.eqb cn 2 end)
-  (* Connected -> some open non-limited connection *)
-  && (negb (Nat.eqb cn 1) || has_direct).
-
-(* clause "never dials a relay address" *)
-Definition dials_ok (ds : list (addr * bool)) : bool :=
-  forallb (fun x => negb (snd x && is_relay (fst x))) ds.
-
-(* 0 = fine, otherwise the number of the violated clause *)
-Definition mon_check (m : mon) (o : op) (x : obs) : nat :=
-  let cs := mon_conns m o in
-  let calls := mon_calls m o in
-  if negb (Nat.eqb (length calls) (length (o_threads x))) then 9
-  else if negb (results_ok cs calls (o_threads x)) then 1
-  else if negb (Nat.eqb (o_nw x) (n_waiting (o_threads x))) then 2
-  else if (match op_new_conn m o with Some (false, _) => negb (Nat.eqb (n_waiting (o_threads x)) 0) | _ => false end) then 3
-  else if negb (ctx_ok o (m_prev m) (o_threads x)) then 4
-  else if negb (cn_ok cs (o_cn x)) then 5
-  else if negb (dials_ok (o_dials x)) then 6
-  else 0.
-
-Definition mon_next (m : mon) (o : op) (x : obs) : mon :=
-  mkMon (mon_conns m o) (mon_calls m o) (o_threads x) (o_dials x).
-
-Fixpoint monitor_run (m : mon) (i : nat) (tr : list (op * obs)) : list Z :=
-  match tr with
-  | [] => []
-  | (o, x) :: r =>
-      match mon_check m o x with
-      | O => monitor_run (mon_next m o x) (S i) r
-      | k => [ERR_PROPERTY; Z.of_nat i; Z.of_nat k]
-      end
-  end.
-
-Definition holds (tr : list (op * obs)) : bool :=
-  match monitor_run mon_init 0 tr with [] => true | _ => false end.
-
-(* ---- conformance (kind 0) ---------------------------------------------------------- *)
-Fixpoint conform_run (s : state) (i : nat) (tr : list (op * obs)) : list Z :=
-  match tr with
-  | [] => []
-  | (o, x) :: r =>
-      let s' := apply_op s o in
-      match obs_diff (obs_of s') x with
-      | O => conform_run s' (S i) r
-      | k => [ERR_MISMATCH; Z.of_nat i; Z.of_nat k; Z.of_nat (o_nw (obs_of s')); Z.of_nat (o_nw x);
-              Z.of_nat (o_cn (obs_of s')); Z.of_nat (o_cn x)]
-      end
-  end.
-
-(* ---- wire decoding (kind 0) ---------------------------------------------------------- *)
 Local Open Scope Z_scope.
-
-Definition zn (z : Z) : nat := Z.to_nat z.
-Definition nonneg (l : list Z) : bool := forallb (fun z => 0 <=? z) l.
-
-Fixpoint pairs_of (l : list Z) : list (nat * nat) :=
-  match l with
-  | a :: b :: r => (zn a, zn b) :: pairs_of r
-  | _ => []
-  end.
-
-(* k pairs from the front of l *)
-Definition take_pairs (k : Z) (l : list Z) : option (list (nat * nat) * list Z) :=
-  let n := (2 * zn k)%nat in
-  if (0 <=? k) && Nat.leb n (length l) then Some (pairs_of (firstn n l), skipn n l) else None.
-
-Definition decode_obs (l : list Z) : option (obs * list Z) :=
-  match l with
-  | nw :: key :: cn :: n :: r =>
-      match take_pairs n r with
-      | Some (ths, k :: r1) =>
-          match take_pairs k r1 with
-          | Some (ds, r2) =>
-              Some (mkObs (zn nw) (zbool key) (zn cn) ths (map (fun p => (fst p, negb (Nat.eqb (snd p) 0))) ds), r2)
-          | None => None
-          end
-      | _ => None
-      end
-  | _ => None
-  end.
-
-Definition decode_op (l : list Z) : option (op * list Z) :=
-  match l with
-  | 1 :: lim :: proxy :: r => Some (OAdd (zbool lim) (zbool proxy), r)
-  | 2 :: c :: r => Some (OMark (zn c), r)
-  | 3 :: c :: r => Some (OReap (zn c), r)
-  | 4 :: d :: a :: f :: n :: r => Some (OStart (zbool d) (zbool a) (zbool f) (zbool n), r)
-  | 5 :: t :: r => Some (OCtx (zn t), r)
-  | 6 :: t :: ok :: r => Some (OOpenRes (zn t) (zbool ok), r)
-  | 7 :: k :: r =>
-      if (0 <=? k) && Nat.leb (zn k) (length r)
-      then Some (OAddrs (map zn (firstn (zn k) r)), skipn (zn k) r) else None
-  | 8 :: a :: ok :: lim :: r => Some (ODialRes (zn a) (zbool ok) (zbool lim), r)
-  | 9 :: r => Some (OExpire, r)
-  | 10 :: lim :: proxy :: r => Some (OAddClosed (zbool lim) (zbool proxy), r)
-  | _ => None
-  end.
-
-Fixpoint decode_trace (fuel : nat) (l : list Z) : option (list (op * obs)) :=
-  match fuel with
-  | O => None
-  | S f =>
-      match l with
-      | [] => Some []
-      | _ =>
-          match decode_op l with
-          | Some (o, r) =>
-              match decode_obs r with
-              | Some (x, r1) =>
-                  match decode_trace f r1 with
-                  | Some t => Some ((o, x) :: t)
-                  | None => None
-                  end
-              | None => None
-              end
-          | None => None
-          end
-      end
-  end.
 
 Definition conform_case (l : list Z) : list Z :=
   if negb (nonneg l) then [ERR_MALFORMED; 0] else
   match l with
-  | 0 :: da :: r =>
-      match decode_trace (S (length r)) r with
-      | Some tr => conform_run (init_state (zn da)) 0 tr
-      | None => [ERR_MALFORMED; 1]
-      end
+  | 0 :: da :: r => conform_swarm da r
   | _ => [ERR_MALFORMED; 3]
   end.
 
 Definition monitor_case (l : list Z) : list Z :=
   if negb (nonneg l) then [ERR_MALFORMED; 0] else
   match l with
-  | 0 :: da :: r =>
-      match decode_trace (S (length r)) r with
-      | Some tr => monitor_run mon_init 0 tr
-      | None => [ERR_MALFORMED; 1]
-      end
+  | 0 :: da :: r => monitor_swarm r
   | _ => [ERR_MALFORMED; 3]
   end.
